@@ -166,6 +166,33 @@ func c12(c *ctx) {
 		})
 	}
 	// ---- (b) suffixed reader
+	// sources that return their last bytes together with io.EOF, read with buffers that leave
+	// 0..9 bytes of room behind the source bytes
+	for _, srcLen := range []int{0, 1, 5, 9, 40} {
+		for room := 0; room <= 10; room++ {
+			for _, chunk := range [][]int{nil, {3}} {
+				key := fmt.Sprintf("suffixeof/%d/%d/%v", srcLen, room, chunk)
+				if !vh.Only(key) {
+					continue
+				}
+				src := vh.PBytes(6, 0, srcLen)
+				r := wsflate.NewReader(&vh.ChunkReader{Data: src, Sizes: chunk, DataErr: true}, func(x io.Reader) wsflate.Decompressor { return &passD{x, false} })
+				var got []byte
+				buf := make([]byte, srcLen+room+1)
+				var err error
+				for i := 0; i < 1000; i++ {
+					var k int
+					k, err = r.Read(buf)
+					got = append(got, buf[:k]...)
+					if err != nil {
+						break
+					}
+				}
+				kind, _ := rerr(err)
+				emit(map[string]interface{}{"k": "suffix", "key": key, "src": vh.Ints(src), "got": vh.Ints(got), "err": kind}, fmt.Sprintf("suffixeof/%d/%d", srcLen, room))
+			}
+		}
+	}
 	for _, srcLen := range []int{0, 1, 2, 8, 9, 10, 100} {
 		src := vh.PBytes(5, 0, srcLen)
 		for mode := 0; mode < 6; mode++ {
@@ -306,7 +333,7 @@ func c12(c *ctx) {
 		for _, f := range files {
 			comp, _ := os.ReadFile(f)
 			orig, _ := os.ReadFile(filepath.Join(in, "orig_"+filepath.Base(f)[3:]))
-			for mode := 0; mode < 6; mode++ {
+			for mode := 0; mode < 8; mode++ {
 				key := fmt.Sprintf("inflate/%s/%d", filepath.Base(f), mode)
 				if !vh.Only(key) {
 					continue
@@ -321,6 +348,10 @@ func c12(c *ctx) {
 					s = &vh.ChunkReader{Data: comp, Sizes: []int{2, 3, 7}}
 				case 4:
 					s = &vh.ChunkReader{Data: comp, Sizes: []int{4096}}
+				case 6: // the last bytes arrive together with io.EOF
+					s = &vh.ChunkReader{Data: comp, Sizes: []int{4096}, DataErr: true}
+				case 7:
+					s = &vh.ChunkReader{Data: comp, Sizes: []int{5}, DataErr: true}
 				}
 				r := wsflate.NewReader(s, func(x io.Reader) wsflate.Decompressor { return flate.NewReader(x) })
 				if mode == 5 { // Reset reuse (C18): read another stream first
